@@ -410,3 +410,49 @@ Proof.
   destruct (i_getown (ihget h i) k); [rewrite getown_store | rewrite getown_store_new];
     (destruct (key_eqb k' k); [intro H; injection H as <-; exact Dw | apply W]).
 Qed.
+
+(* ---- [[Get]] and [[HasProperty]] ---- *)
+
+Lemma get_eq_spec_fuel : forall fuel h hs o k r,
+  heap_rel h hs -> heap_wf h -> i_get fuel h o k r = s_get fuel hs o k r.
+Proof.
+  induction fuel as [|f IH]; intros h hs o k r R W; [reflexivity|].
+  simpl. pose proof (getown_rel h hs o k R) as G.
+  destruct R as [L Ro]. destruct (Ro o) as (Rp & _ & _).
+  destruct (i_getown (ihget h o) k) as [[v0|p]|] eqn:Q; simpl in G; rewrite <- G.
+  - reflexivity.
+  - assert (Wp : vprop_wf p = true) by (apply (W o k (IProp p) Q)).
+    destruct (vp_accessor p) eqn:A.
+    + destruct (wf_acc p Wp A) as [_ Vl]. rewrite Vl. destruct (vp_getter p); reflexivity.
+    + destruct (wf_data_absP p Wp A) as (_ & Gt & v0 & Vl). rewrite Gt, Vl. reflexivity.
+  - rewrite <- Rp. destruct (i_proto (ihget h o)); [apply IH; [split; auto | exact W] | reflexivity].
+Qed.
+
+Lemma has_eq_spec_fuel : forall fuel h hs o k,
+  heap_rel h hs -> i_has fuel h o k = s_has fuel hs o k.
+Proof.
+  induction fuel as [|f IH]; intros h hs o k R; [reflexivity|].
+  simpl. pose proof (getown_rel h hs o k R) as G.
+  destruct R as [L Ro]. destruct (Ro o) as (Rp & _ & _).
+  destruct (i_getown (ihget h o) k) as [ip|]; simpl in G; rewrite <- G; [reflexivity|].
+  rewrite <- Rp. destruct (i_proto (ihget h o)); [apply IH; split; auto | reflexivity].
+Qed.
+
+Lemma get_eq_spec : forall h hs o k r,
+  heap_rel h hs -> heap_wf h ->
+  snd (fst (istep h (OGet o k r))) = snd (fst (sstep hs (OGet o k r))) /\
+  snd (istep h (OGet o k r)) = snd (sstep hs (OGet o k r)) /\
+  fst (fst (istep h (OGet o k r))) = h.
+Proof.
+  intros h hs o k r R W. cbn [istep sstep]. rewrite (proj1 R).
+  rewrite (get_eq_spec_fuel _ h hs o k r R W).
+  destruct (s_get (S (S (length hs))) hs o k r). auto.
+Qed.
+
+Lemma has_eq_spec : forall h hs o k,
+  heap_rel h hs -> snd (fst (istep h (OHas o k))) = snd (fst (sstep hs (OHas o k))).
+Proof. intros h hs o k R. cbn [istep sstep fst snd]. rewrite (proj1 R). f_equal. now apply has_eq_spec_fuel. Qed.
+
+Lemma getown_eq_spec : forall h hs o k,
+  heap_rel h hs -> snd (fst (istep h (OGetOwn o k))) = snd (fst (sstep hs (OGetOwn o k))).
+Proof. intros h hs o k R. cbn [istep sstep fst snd]. f_equal. now apply getown_rel. Qed.
